@@ -7,6 +7,8 @@ import QmiModel.Props.C20
 #print axioms QmiModel.Adbasic.ranges_partition
 #print axioms QmiModel.Adbasic.batch_set_eq_single
 #print axioms QmiModel.Adbasic.batch_get_eq_single
+#print axioms QmiModel.Adbasic.batch_get_any_names
+#print axioms QmiModel.Adbasic.batch_get_drops_repeated_spelling
 #print axioms QmiModel.Adbasic.touches_exactly_bound_registers
 #print axioms QmiModel.Adbasic.start_with_params_eq_single
 #print axioms QmiModel.Adbasic.name_denotes_one_register
